@@ -565,6 +565,167 @@ def gen_cases(rng, n):
     return cases
 
 
+# -- attribute / item priority: both accesses exist, Python's own meaning must win
+
+DICT_ATTRS = ['keys', 'items', 'values', 'get', 'copy', 'update', 'pop']
+WRAPS = ['%s', '%s', '[%s for i in items]', '(lambda p: %s)(1)', '%s if a else %s', '(%s, a)', 'f(%s)', 'len([%s])',
+         'sum(1 for j in [%s])', '[%s][0]']
+
+
+def priority_cases(rng, n):
+    """expressions in which attribute access and item access BOTH succeed with different results:
+    (a) plain dicts whose keys are names of dict methods, read with dot notation (and called),
+    (b) objects with an attribute x and an item 'x' of different values read as o.x,
+    (c) the same objects read as o['x'] (and the one-sided fall-backs next to them)"""
+    cases = []
+    scal = lambda: rng.choice([0, 1, 2, 7, 'abc', 'k', None, True])
+    for _ in range(n):
+        data = rand_data(rng)
+        for nm in ('a', 'items'):
+            data.setdefault(nm, 1 if nm == 'a' else [1, 2])
+        data.setdefault('f', {'$fn': 'ident'})
+        shape = rng.choice(['dict-method', 'dict-method', 'dict-method', 'both-attr', 'both-item', 'both-mixed'])
+        if shape == 'dict-method':
+            nm = rng.choice(['d', 'row'])
+            coll = rng.sample(DICT_ATTRS, rng.randrange(1, 4))
+            plain = rng.sample(['a', 'b', 'k'], rng.randrange(0, 3))
+            keys = coll + plain
+            rng.shuffle(keys)
+            data[nm] = {'$dict': [[k, scal()] for k in keys]}
+            m = rng.choice(coll)
+            forms = ['%s.%s' % (nm, m), '%s[%r]' % (nm, m), '(%s.%s, %s[%r])' % (nm, m, nm, m)]
+            if m in ('keys', 'items', 'values'):
+                forms += ['sorted(%s.%s(), key=str)' % (nm, m), 'list(%s.%s())' % (nm, m), 'len(%s.%s())' % (nm, m)] * 2
+            elif m == 'get':
+                forms += ['%s.get(%r)' % (nm, rng.choice(keys)), '%s.get("zz", 5)' % nm] * 2
+            elif m == 'copy':
+                forms += ['%s.copy()' % nm] * 2
+            elif m == 'pop':
+                forms += ['%s.pop("zz", 3)' % nm]
+            core = rng.choice(forms)
+        else:
+            shared = rng.sample(['x', 'k', 'val', 'a'], rng.randrange(1, 3))
+            attrs = dict((k, rng.choice([1, 2, 'attr-' + k])) for k in shared)
+            its = dict((k, 'item-' + k) for k in shared)
+            attrs['only_attr'] = 5
+            its['only_item'] = 'item-only'
+            data['obj'] = {'$objitems': [attrs, its]}
+            k = rng.choice(shared)
+            if shape == 'both-attr':
+                core = rng.choice(['obj.%s' % k, 'obj.%s' % k, 'obj.only_item', '(obj.%s, obj.only_attr)' % k])
+            elif shape == 'both-item':
+                core = rng.choice(['obj[%r]' % k, 'obj[%r]' % k, 'obj["only_attr"]', '(obj[%r], obj["only_item"])' % k])
+            else:
+                core = rng.choice(['(obj.%s, obj[%r])' % (k, k), 'obj.%s == obj[%r]' % (k, k), '[obj[%r], obj.%s]' % (k, k)])
+        w = rng.choice(WRAPS)
+        src = w % ((core,) * w.count('%s'))
+        cases.append({'kind': 'eval', 'src': src, 'lookup': rng.choice(['strict', 'lenient']), 'data': data, 'shape': 'priority:' + shape})
+    return cases
+
+
+LOOKUP_POOL = ['x', 'k', 'a', 'keys', 'items', 'get', 'values', 'p', 'missing']
+
+
+def gen_lookup_objects(rng, n):
+    """descriptions of record-like objects (Model/PyLookupObj.lean): (kind, attrs, cls, items), biased towards
+    names that exist both as an attribute and as an item"""
+    out = []
+    for _ in range(n):
+        if rng.random() < 0.4:
+            keys = rng.sample(LOOKUP_POOL, rng.randrange(0, 5))
+            items = [[k, rng.randrange(1, 50)] for k in keys]
+            cls = [[m, 9000 + i] for i, m in enumerate(LOOKUP_POOL) if hasattr(dict, m)]
+            desc = ['dict', [], cls, items]
+        else:
+            names = rng.sample(LOOKUP_POOL, rng.randrange(0, 5))
+            cls = []
+            for m in rng.sample(LOOKUP_POOL, rng.randrange(0, 3)):
+                cls.append([m, None if rng.random() < 0.4 else rng.randrange(100, 150)])
+            props = set(m for m, v in cls if v is None)
+            attrs = [[k, rng.randrange(1, 50)] for k in names if k not in props]     # (a property would shadow it)
+            if rng.random() < 0.75:
+                src = names if rng.random() < 0.6 else rng.sample(LOOKUP_POOL, rng.randrange(0, 5))
+                items = [[k, rng.randrange(50, 99)] for k in src]
+            else:
+                items = None
+            desc = ['obj', attrs, cls, items]
+        present = sorted(set([a for a, _ in desc[1]] + [m for m, _ in desc[2]] + [i for i, _ in (desc[3] or [])]))
+        r = rng.random()
+        key = rng.choice(present) if present and r < 0.6 else rng.choice(LOOKUP_POOL) if r < 0.93 else rng.randrange(0, 3)
+        out.append({'kind': 'lookup', 'obj': desc, 'key': key, 'which': rng.choice(['attr', 'item']),
+                    'strict': rng.random() < 0.5})
+    return out
+
+
+def build_lookup_object(desc):
+    kind, attrs, cls, items = desc
+    if kind == 'dict':
+        return dict((k, v) for k, v in items)
+    ns = {}
+    for m, v in cls:
+        if v is None:
+            def raiser(self, _m=m):
+                raise AttributeError(_m)
+            ns[m] = property(raiser)
+        else:
+            ns[m] = v
+    if items is not None:
+        table = dict((k, v) for k, v in items)
+        ns['__getitem__'] = lambda self, k, _t=table: _t[k]
+    o = type('O', (object,), ns)()
+    o.__dict__.update(dict((k, v) for k, v in attrs))
+    return o
+
+
+def real_lookup(case):
+    from genshi.template import eval as ev
+    cls = ev.StrictLookup if case['strict'] else ev.LenientLookup
+    o = build_lookup_object(case['obj'])
+    try:
+        if case['which'] == 'attr':
+            v = cls.lookup_attr(o, case['key'])
+        else:
+            v = cls.lookup_item(o, (case['key'],))
+    except Exception as e:  # noqa
+        return [Atom('err'), type(e).__name__]
+    if isinstance(v, ev.Undefined):
+        return [Atom('undefined'), v._name]
+    if isinstance(v, int):
+        return [Atom('ok'), Atom(str(v))]
+    nm = getattr(v, '__name__', None)
+    if nm in LOOKUP_POOL and case['obj'][0] == 'dict':
+        return [Atom('ok'), Atom(str(9000 + LOOKUP_POOL.index(nm)))]       # a bound method of dict
+    return [Atom('ok'), Atom('other')]
+
+
+def compare_lookup(cases, res):
+    """Lean lookupAttr / lookupItem on the concrete object world vs LookupBase.lookup_attr / lookup_item"""
+    lines, meta = [], []
+    for c in cases:
+        if c['which'] == 'attr' and not isinstance(c['key'], str):
+            continue
+        kind, attrs, cls, items = c['obj']
+        lines.append(proto.line(Atom('C03'), Atom('lookup'), Atom(c['which']), bool(c['strict']),
+                                [Atom('obj'), attrs, cls, items], c['key']))
+        meta.append(c)
+    for c, ans in zip(meta, proto.run_lines(lines)):
+        if ans == 'unmodelled':
+            res.count('model:lookup:unmodelled')
+            continue
+        res.streams['lookup-rules'] = res.streams.get('lookup-rules', 0) + 1
+        model, real = proto.dec(ans), real_lookup(c)
+        kind, attrs, cls, items = c['obj']
+        k = c['key']
+        has_attr = any(a == k for a, _ in attrs) or any(m == k and v is not None for m, v in cls)
+        has_item = items is not None and any(i == k for i, _ in items)
+        res.count('lookup:%s:%s' % (c['which'], 'both' if has_attr and has_item else 'attr-only' if has_attr else
+                                    'item-only' if has_item else 'neither'))
+        if has_attr and has_item:
+            res.nontrivial.add('lookup:%s:both:%s:%s' % (c['which'], kind, k))
+        if model != real:
+            res.disagreements.append({'stream': 'lookup-rules', 'case': c, 'model': repr(model), 'real': repr(real)})
+
+
 def in_hypothesis(src):
     return True
 
@@ -626,6 +787,10 @@ HAND = [
     ('items[5]', {'items': []}), ('obj.broken', {'obj': {'$objprop': {}}}), ('not nope', {}), ('nope or 1', {}), ('[i for i in nope]', {}),
     ('f(*items, **d)', {'f': {'$fn': 'pair'}, 'items': [1], 'd': {'$dict': [['k', 2]]}}), ('a if b else c', {'a': 1, 'b': 0, 'c': 2}),
     ('a < b < c', {'a': 1, 'b': 2, 'c': 3}), ('sum(i * i for i in items if i)', {'items': [0, 1, 2]}), ('{**d, "z": 1}', {'d': {'$dict': [['k', 2]]}}),
+    ('sorted(d.keys())', {'d': {'$dict': [['keys', 1], ['b', 2]]}}), ('d.keys', {'d': {'$dict': [['keys', 1]]}}), ('d["keys"]', {'d': {'$dict': [['keys', 1]]}}),
+    ('list(row.items())', {'row': {'$dict': [['items', 3], ['a', 1]]}}), ('d.get("b")', {'d': {'$dict': [['get', 0], ['b', 2]]}}),
+    ('(obj.x, obj["x"])', {'obj': {'$objitems': [{'x': 1}, {'x': 'item-x'}]}}), ('obj.y', {'obj': {'$objitems': [{'x': 1}, {'y': 'item-y'}]}}),
+    ('obj["x"]', {'obj': {'$objitems': [{'x': 1}, {'y': 'item-y'}]}}),
     ('Ellipsis', {}), ('...', {}), ('x[...]', {'x': {'$dict': []}}), ('items[1:][0]', {'items': [1, 2]}), ('items[::2]', {'items': [1, 2, 3]}),
 ]
 
@@ -750,6 +915,7 @@ def shard(arg):
     cases = gen_cases(rng, n)
     if idx == 0:
         cases = [{'kind': 'eval', 'src': s, 'lookup': lk, 'data': d} for s, d in HAND for lk in ('strict', 'lenient')] + cases
+    cases += priority_cases(rng, max(20, n // 8))
     cases += gen_lex(rng, nlex)
     cases += gen_lex_raw(rng, nlex * 4)
     for c in cases:
@@ -757,6 +923,8 @@ def shard(arg):
         try:
             cls = classify(c)
             res.count('outcome:' + cls)
+            if c.get('shape'):
+                res.count(c['shape'] + ':' + cls.split(':')[0])
             k = nontrivial_key(c, cls)
             if k:
                 res.nontrivial.add(k)
@@ -783,6 +951,7 @@ def shard(arg):
         if st == 'bad':
             res.failures.append(oracle_scope({'kind': 'scope', 'src': c['src']}))
     compare_model(cases, res)
+    compare_lookup(gen_lookup_objects(rng, max(100, n // 2)), res)
     res.samples = [c for c in cases[:3]]
     return res
 
